@@ -33,26 +33,26 @@ Section C02.
 
   Theorem gap_formula :
     forall ei ej V T cv, 0 < T -> V <> 0 -> ei <> 0 -> ej <> 0 -> cv <> 0 ->
-      adiabatic (OF:=ROps) K Q1_exp Q2_exp true w na (freq V) (gam V) (sample sp (fun m => vdr_of m V)) ei ej V T 0 0 cv
-      - isothermal (OF:=ROps) K Q1_exp Q2_exp true w na (freq V) (gam V) (sample sp (fun m => vdr_of m V)) ei ej V T 0 0
+      adiabatic (OF:=ROps) K Q1_neg Q2_neg true w na (freq V) (gam V) (sample sp (fun m => vdr_of m V)) ei ej V T 0 0 cv
+      - isothermal (OF:=ROps) K Q1_neg Q2_neg true w na (freq V) (gam V) (sample sp (fun m => vdr_of m V)) ei ej V T 0 0
       = T * V * (dPdT K w sp T V * dPdT K w sp T V) / (9 * ei * ej * cv).
   Proof.
     intros ei ej V T cv HT HV Hi Hj Hc. unfold adiabatic. cbn [add sub ROps].
-    unfold freq, gam. erewrite gap_formula_l by eassumption. ring.
+    unfold freq, gam. rewrite gap_neg_eq_l by assumption. erewrite gap_formula_l by eassumption. ring.
   Qed.
 
   Theorem gap_formula_any_class :
     forall lg ei ej V T p pst cv fr ga vd, 
-      adiabatic (OF:=ROps) K Q1_exp Q2_exp lg w na fr ga vd ei ej V T p pst cv
-      - isothermal (OF:=ROps) K Q1_exp Q2_exp lg w na fr ga vd ei ej V T p pst
-      = gap (OF:=ROps) K Q2_exp w na fr ga ei ej V T cv.
+      adiabatic (OF:=ROps) K Q1_neg Q2_neg lg w na fr ga vd ei ej V T p pst cv
+      - isothermal (OF:=ROps) K Q1_neg Q2_neg lg w na fr ga vd ei ej V T p pst
+      = gap (OF:=ROps) K Q2_neg w na fr ga ei ej V T cv.
   Proof. intros. unfold adiabatic. cbn [add sub ROps]. ring. Qed.
 
   Theorem gap_closed_form :
     forall ei ej V T cv, 0 < T -> V <> 0 -> ei <> 0 -> ej <> 0 -> cv <> 0 ->
-      gap (OF:=ROps) K Q2_exp w na (freq V) (gam V) ei ej V T cv
+      gap (OF:=ROps) K Q2_neg w na (freq V) (gam V) ei ej V T cv
       = T * V * (dPdT K w sp T V * dPdT K w sp T V) / (9 * ei * ej * cv).
-  Proof. intros. unfold freq, gam. eapply gap_formula_l; eassumption. Qed.
+  Proof. intros. unfold freq, gam. rewrite gap_neg_eq_l by assumption. eapply gap_formula_l; eassumption. Qed.
 
   Theorem gap_at_zero_T :
     forall Q2 fr ga ei ej V cv, gap (OF:=ROps) K Q2 w na fr ga ei ej V 0 cv = 0.
@@ -60,8 +60,12 @@ Section C02.
 
   Theorem gap_nonneg_diagonal :
     forall e V T cv, 0 <= T -> 0 < V -> e <> 0 -> 0 < cv ->
-      0 <= gap (OF:=ROps) K Q2_exp w na (freq V) (gam V) e e V T cv.
-  Proof. intros. unfold freq, gam. eapply gap_nonneg_diagonal_l; eassumption. Qed.
+      0 <= gap (OF:=ROps) K Q2_neg w na (freq V) (gam V) e e V T cv.
+  Proof.
+    intros e V T cv HT HV He Hcv. unfold freq, gam. destruct (Req_dec T 0) as [-> | HT0].
+    - rewrite gap_at_zero_T_l. lra.
+    - rewrite gap_neg_eq_l by (assumption || lra). eapply gap_nonneg_diagonal_l; eassumption.
+  Qed.
 End C02.
 
 Print Assumptions dPdT_closed_form.
